@@ -354,6 +354,8 @@ Definition core_names : list string :=
    "offset_to_point_data"; "number_of_vlrs"; "point_format_id"; "point_size";
    "extra_header_bytes"; "extra_vlr_bytes"]%string.
 
+Ltac in_core := unfold core_names; cbn [In]; repeat (first [left; reflexivity | right]).
+
 Lemma with_stats_core h st n : In n core_names -> aget (with_stats h st) n = aget h n.
 Proof.
   intros Hin. unfold core_names in Hin. cbn [In] in Hin.
@@ -392,3 +394,176 @@ Proof.
     rewrite !aget_aset_other by reflexivity. now rewrite aget_aset_same. }
   rewrite aget_aset_other by exact E3. exact H.
 Qed.
+
+(* ------------------------------------------------------------------------------------ *)
+(* the bytes of an encoded header at the positions the reader relies on                  *)
+(* ------------------------------------------------------------------------------------ *)
+Lemma enc_count_at p w off : forall l h fb rest c,
+  nth_error l p = Some (KUInt, w, "point_count"%string) -> layout_fixed_ok (firstn (S p) l) = true ->
+  Z.to_nat (layout_width (firstn p l)) = off ->
+  aget h "point_count" = Some (VInt c) ->
+  enc_fields l (hdr_vals h l) = Ok fb ->
+  firstn w (skipn off (fb ++ rest)) = le_enc w c /\ 0 <= c < 256 ^ Z.of_nat w.
+Proof.
+  intros l h fb rest c Hn Hok Hoff Hc He.
+  destruct (enc_fields_nth p l _ fb rest _ _ _ Hn Hok He) as (b & Hb & Hl & Hf).
+  rewrite (nth_hdr_vals h l p _ _ _ Hn) in Hb. rewrite Hoff in Hf. rewrite Hf.
+  rewrite (wval_get h "point_count" (VInt c) eq_refl eq_refl Hc) in Hb.
+  cbn [enc_field] in Hb. unfold to_bytes in Hb.
+  destruct ((0 <=? c) && (c <? 256 ^ Z.of_nat w)) eqn:E; [|discriminate].
+  injection Hb as <-. split; [reflexivity|lia].
+Qed.
+
+Lemma hdr_bytes_facts W vl es h' bs c :
+  enc_header W vl es = Ok (h', bs) -> aget W "point_count" = Some (VInt c) ->
+  let m := aint W "version.minor" in
+  1 <= m <= 4 /\ (227 <= length bs)%nat /\ (cntp m + cntw m <= length bs)%nat
+  /\ le_dec (firstn 4 (skipn 96 bs)) = len bs
+  /\ le_dec (firstn 1 (skipn 25 bs)) = m
+  /\ le_dec (firstn 2 (skipn 105 bs)) = aint W "point_size"
+  /\ firstn (cntw m) (skipn (cntp m) bs) = le_enc (cntw m) c /\ 0 <= c < 256 ^ Z.of_nat (cntw m).
+Proof.
+  intros He Hc. pose proof (enc_header_len _ _ _ _ _ He) as Hlen.
+  destruct (enc_header_inv _ _ _ _ _ He) as (vb & hs0 & fb & Hv & Hh & _ & _ & Hh' & Hf & Hbs). cbv zeta.
+  assert (aint h' "version.minor" = aint W "version.minor") as Hmn
+    by (rewrite Hh'; rewrite !aint_aset_other by reflexivity; reflexivity).
+  assert (aint h' "point_size" = aint W "point_size") as Hps
+    by (rewrite Hh'; rewrite !aint_aset_other by reflexivity; reflexivity).
+  assert (aget h' "point_count" = Some (VInt c)) as Hc'
+    by (rewrite Hh'; rewrite !aget_aset_other by reflexivity; exact Hc).
+  clear Hh'.
+  destruct (hw_layout_width _ _ _ Hh) as [Hw Hok].
+  pose proof (enc_fields_len _ _ _ Hok Hf) as Hfb. rewrite Hw in Hfb.
+  destruct (tbl_cases_range _ _ _ Hh) as (_ & Hm & Hhs0).
+  set (m := aint W "version.minor") in *.
+  set (rest := abytes W "extra_header_bytes" ++ vb ++ abytes W "extra_vlr_bytes") in *.
+  destruct (header_prefix m h' fb rest Hm Hf) as (_ & Pm & Poff).
+  rewrite <- Hbs in Pm, Poff. rewrite Hmn in Pm. rewrite <- Hlen in Poff.
+  assert (length fb <= length bs)%nat as Hlb by (rewrite Hbs, app_length; lia).
+  assert (Z.of_nat (length fb) = hs0) as Hfb' by exact Hfb.
+  rewrite <- Hps.
+  split; [exact Hm|]. split; [lia|].
+  destruct (header_size_tbl_cases _ _ _ Hh) as (_ & Hcases). clearbody m.
+  destruct Hcases as [[-> ->]|[[-> ->]|[[-> ->]|[-> ->]]]].
+  all: match type of Hf with enc_fields ?l _ = _ =>
+    pose proof (enc_uint_at 14 2 "point_size" 105 l h' fb rest eq_refl eq_refl eq_refl eq_refl eq_refl Hf) as Pps
+  end; rewrite <- Hbs in Pps.
+  1-3: match type of Hf with enc_fields ?l _ = _ =>
+    destruct (enc_count_at 15 4 107 l h' fb rest c eq_refl eq_refl eq_refl Hc' Hf) as [Pc Pr] end.
+  4: match type of Hf with enc_fields ?l _ = _ =>
+    destruct (enc_count_at 36 8 247 l h' fb rest c eq_refl eq_refl eq_refl Hc' Hf) as [Pc Pr] end.
+  all: rewrite <- Hbs in Pc.
+  all: cbv [cntp cntw Z.geb Z.compare Pos.compare Pos.compare_cont] in *.
+  all: (split; [lia|]).
+  all: repeat split; try assumption.
+  all: apply Pr.
+Qed.
+
+(* ------------------------------------------------------------------------------------ *)
+(* two encodings whose first p values agree have the same first bytes                    *)
+(* ------------------------------------------------------------------------------------ *)
+Lemma enc_fields_prefix_agree : forall p l v1 v2 b1 b2,
+  layout_fixed_ok (firstn p l) = true -> firstn p v1 = firstn p v2 ->
+  enc_fields l v1 = Ok b1 -> enc_fields l v2 = Ok b2 ->
+  firstn (Z.to_nat (layout_width (firstn p l))) b1 = firstn (Z.to_nat (layout_width (firstn p l))) b2.
+Proof.
+  induction p as [|p IH]; intros l v1 v2 b1 b2 Hok Hv H1 H2; [reflexivity|].
+  destruct l as [|[[k w] n] l]; [reflexivity|].
+  destruct v1 as [|x1 v1]; [discriminate|]. destruct v2 as [|x2 v2]; [discriminate|].
+  cbn [firstn] in Hv. injection Hv as Hx Hv. subst x2.
+  cbn [enc_fields] in H1, H2.
+  destruct (enc_field k w x1) as [c|e] eqn:Ec; [|discriminate]. cbn [bind] in H1, H2.
+  destruct (enc_fields l v1) as [r1|e] eqn:E1; [|discriminate].
+  destruct (enc_fields l v2) as [r2|e] eqn:E2; [|discriminate].
+  cbn [bind] in H1, H2. injection H1 as <-. injection H2 as <-.
+  change (firstn (S p) ((k, w, n) :: l)) with ((k, w, n) :: firstn p l) in *.
+  cbn [layout_fixed_ok forallb fst snd] in Hok. apply andb_true_iff in Hok as [Hk Hok].
+  fold (layout_fixed_ok (firstn p l)) in Hok.
+  assert (length c = w) as Hl.
+  { apply (enc_field_len _ _ _ _ Ec). destruct k; try exact I; [now apply Nat.ltb_lt|discriminate]. }
+  rewrite layout_width_cons. cbn [fst snd].
+  rewrite Z2Nat.inj_add by (try apply layout_width_nonneg; lia). rewrite Nat2Z.id.
+  rewrite <- Hl. rewrite !firstn_app_2. f_equal. now apply (IH l v1 v2).
+Qed.
+
+(* re-encoding the header returned by enc_header with other statistics keeps every non-statistic field *)
+Lemma reenc_agree W0 vl h0 b0 st h1 b1 :
+  enc_header W0 vl false = Ok (h0, b0) -> enc_header (with_stats h0 st) vl true = Ok (h1, b1) ->
+  (forall n, In n core_names -> aget h1 n = aget h0 n)
+  /\ aint (with_stats h0 st) "version.minor" = aint W0 "version.minor"
+  /\ exists vb fb0 fb1,
+       enc_fields (fixed_part (hw_layout (aint W0 "version.minor"))) (hdr_vals h0 (fixed_part (hw_layout (aint W0 "version.minor")))) = Ok fb0
+    /\ enc_fields (fixed_part (hw_layout (aint W0 "version.minor"))) (hdr_vals h1 (fixed_part (hw_layout (aint W0 "version.minor")))) = Ok fb1
+    /\ b0 = fb0 ++ abytes W0 "extra_header_bytes" ++ vb ++ abytes W0 "extra_vlr_bytes"
+    /\ b1 = fb1 ++ abytes W0 "extra_header_bytes" ++ vb ++ abytes W0 "extra_vlr_bytes".
+Proof.
+  intros H0 H1.
+  destruct (enc_header_inv _ _ _ _ _ H0) as (vb0 & hs0 & fb0 & Hv0 & Hh0 & _ & _ & Hh0' & Hf0 & Hbs0).
+  destruct (enc_header_inv _ _ _ _ _ H1) as (vb1 & hs1 & fb1 & Hv1 & Hh1 & _ & _ & Hh1' & Hf1 & Hbs1).
+  rewrite Hv0 in Hv1. injection Hv1 as <-.
+  set (W1 := with_stats h0 st) in *.
+  cbv zeta in Hh0', Hh1'.
+  assert (forall n, In n core_names -> aget W1 n = aget h0 n) as Hcore
+    by (intros n Hn; apply with_stats_core, Hn).
+  assert (forall n, String.eqb "offset_to_point_data" n = false -> String.eqb "header_size" n = false ->
+            String.eqb "number_of_vlrs" n = false -> aget h0 n = aget W0 n) as Hkeep.
+  { intros n A B C. rewrite Hh0'. now rewrite !aget_aset_other by assumption. }
+  assert (aint W1 "version.minor" = aint W0 "version.minor") as Emn.
+  { apply aint_get. rewrite Hcore by in_core. now apply Hkeep. }
+  assert (aint W1 "version.major" = aint W0 "version.major") as Emj.
+  { apply aint_get. rewrite Hcore by in_core. now apply Hkeep. }
+  assert (abytes W1 "extra_header_bytes" = abytes W0 "extra_header_bytes") as Eeh.
+  { apply abytes_get. rewrite Hcore by in_core. now apply Hkeep. }
+  assert (abytes W1 "extra_vlr_bytes" = abytes W0 "extra_vlr_bytes") as Eev.
+  { apply abytes_get. rewrite Hcore by in_core. now apply Hkeep. }
+  rewrite Emn, Emj, Hh0 in Hh1. injection Hh1 as <-.
+  rewrite Emn in Hf1. rewrite Eeh, Eev in Hh1', Hbs1.
+  fold (upd3 W0 (hs0 + len (abytes W0 "extra_header_bytes") + len vb0 + len (abytes W0 "extra_vlr_bytes"))
+             (hs0 + len (abytes W0 "extra_header_bytes")) (len vl)) in Hh0'.
+  fold (upd3 W1 (hs0 + len (abytes W0 "extra_header_bytes") + len vb0 + len (abytes W0 "extra_vlr_bytes"))
+             (hs0 + len (abytes W0 "extra_header_bytes")) (len vl)) in Hh1'.
+  split; [|split; [exact Emn|]].
+  - intros n Hn. rewrite Hh1', Hh0'. apply upd3_absorb. rewrite <- Hh0'. now apply Hcore.
+  - exists vb0, fb0, fb1. repeat split; assumption.
+Qed.
+
+Lemma firstn_app_le {A} n (a b : list A) : (n <= length a)%nat -> firstn n (a ++ b) = firstn n a.
+Proof.
+  intros H. rewrite firstn_app. replace (n - length a)%nat with 0%nat by lia. cbn [firstn]. apply app_nil_r.
+Qed.
+
+Lemma l15_facts m : 1 <= m <= 4 ->
+  Z.to_nat (layout_width (firstn 15 (fixed_part (hw_layout m)))) = 107%nat
+  /\ layout_fixed_ok (firstn 15 (fixed_part (hw_layout m))) = true
+  /\ map snd (firstn 15 (fixed_part (hw_layout m))) = firstn 15 core_names.
+Proof.
+  intros Hm. assert (m = 1 \/ m = 2 \/ m = 3 \/ m = 4) as [->|[->|[->| ->]]] by lia;
+  (split; [|split]); vm_compute; reflexivity.
+Qed.
+
+(* the two headers of a writer session agree outside the statistic fields *)
+Lemma headers_agree_prefix : forall ap h vl fmt recs evl hb0 h',
+  enc_header (with_stats h stats0) vl false = Ok hb0 -> final_hdr ap h vl fmt recs evl = Ok h' ->
+  forall hb1, enc_header (with_stats (fst hb0) (stats_of_header h')) vl true = Ok hb1 ->
+  length (snd hb1) = length (snd hb0) /\ firstn 107 (snd hb1) = firstn 107 (snd hb0).
+Proof.
+  intros ap h vl fmt recs evl [h0 b0] h' H0 _ [h1 b1] H1. cbn [fst snd] in *.
+  destruct (reenc_agree _ _ _ _ _ _ _ H0 H1) as (Hag & Emn & vb & fb0 & fb1 & Hf0 & Hf1 & -> & ->).
+  destruct (enc_header_inv _ _ _ _ _ H0) as (_ & hs0 & _ & _ & Hh & _).
+  destruct (hw_layout_width _ _ _ Hh) as [Hw Hok].
+  pose proof (enc_fields_len _ _ _ Hok Hf0) as L0. pose proof (enc_fields_len _ _ _ Hok Hf1) as L1.
+  rewrite Hw in L0, L1.
+  destruct (tbl_cases_range _ _ _ Hh) as (_ & Hm & Hhs0).
+  split.
+  - rewrite !app_length. unfold len in *. lia.
+  - set (m := aint (with_stats h stats0) "version.minor") in *.
+    rewrite !firstn_app_le by (unfold len in *; lia).
+    destruct (l15_facts m Hm) as (A1 & A2 & A3).
+    rewrite <- A1.
+    refine (enc_fields_prefix_agree 15 _ _ _ _ _ A2 _ Hf1 Hf0).
+    unfold hdr_vals. rewrite !firstn_map. apply map_ext_in. intros f Hf.
+    apply wval_get_ext, Hag.
+    assert (In (snd f) (firstn 15 core_names)) as Hin by (rewrite <- A3; now apply in_map).
+    rewrite <- (firstn_skipn 15 core_names). apply in_or_app. now left.
+Qed.
+Print Assumptions headers_agree_prefix.
